@@ -959,7 +959,7 @@ def shrink(res, sig):
 
 
 def run(ctx):
-    ctx.build(FILES)
+    ctx.build_with_translator(FILES)
     import photutils.segmentation  # noqa: F401  (import before forking)
     ctx.cov['rule'] = (
         'histories = initial object (hand-made arrays with gaps / disconnected labels / holes / no background / all '
